@@ -158,6 +158,14 @@ def run_instance(inst, tier):
             laws = [expected_split(t, probs, fp, r, target=target) for r in ranges]
             if not one("delta", p, laws, "delta", {"target": target}):
                 break
+            if lo <= target < hi and inst["fp"] == "2^-k" and t <= 2:
+                # the same target as an equal number of another numeric type
+                import numpy as np
+                for alt in (float(target), np.int64(target)):
+                    p2 = dict(p)
+                    p2[JN.TARGET_K] = alt
+                    if not one("delta", p2, laws, "delta", {"target": repr(alt)}):
+                        break
             if lo < target < hi - 1 and t >= 2:
                 res.flags.add("delta-target-inside-with-degrees-below")
                 res.nontrivial.add(("delta", t, tuple(inst["probs"]), lo, hi, inst["fp"], target))
